@@ -167,32 +167,52 @@ def run(ctx):
     ctxf = ctx.facts(f)
     g = ctx.cfg(f)
     dom = g.dominators()
-    # dst_offset default assigned before the optional ParseOffset on the same path
-    assigns = [x for x in walk(f) if x.get('kind') == 'BinaryOperator' and x.get('opcode') == '=' and
-               K.key(kids(x)[0]).endswith('.dst_offset')]
+    # On every path to an accepting return the last writer of the field is either the
+    # explicit parse or the default constant; when both occur the explicit parse is last.
     calls = [x for x in walk(f) if x.get('kind') == 'CallExpr' and callee(x) and callee(x)[0] == 'fn' and
              callee(x)[1].get('name') == 'ParseOffset']
-    dflt = [a for a in assigns if re.match(r'^\(.*\.std_offset \+ n:3600\)$', K.key(kids(a)[1]))]
-    dst_calls = [c for c in calls if K.key(call_args(c)[-1]).endswith('.dst_offset)')]
-    ok = len(dflt) == 1 and len(dst_calls) == 1 and any(
-        n1.id in dom[n2.id] for n1 in g.nodes_for(dflt[0]) for n2 in g.nodes_for(dst_calls[0]))
-    ctx.check(ok, 'C16-default', 'dst_offset defaults to std_offset + 1h before the optional offset is parsed', f,
-              'the one-hour default of the DST offset is missing, is not std_offset + 3600, or is assigned after the '
-              'explicit offset has been parsed (overwriting it)', construct='default:dst_offset')
     kd = G.one('cctz::ParseDateTime')
     ud, fd = G.defs[kd]
-    Kd = Keys(ud)
-    gd = ctx.cfg(fd)
-    domd = gd.dominators()
-    t_assign = [x for x in walk(fd) if x.get('kind') == 'BinaryOperator' and x.get('opcode') == '=' and
-                Kd.key(kids(x)[0]).endswith('.time.offset') and Kd.key(kids(x)[1]) == 'n:7200']
     t_calls = [x for x in walk(fd) if x.get('kind') == 'CallExpr' and callee(x) and callee(x)[0] == 'fn' and
                callee(x)[1].get('name') == 'ParseOffset']
-    ok = len(t_assign) == 1 and len(t_calls) == 1 and any(
-        n1.id in domd[n2.id] for n1 in gd.nodes_for(t_assign[0]) for n2 in gd.nodes_for(t_calls[0]))
-    ctx.check(ok, 'C16-default', 'rule time defaults to 02:00:00 before the optional /time is parsed', fd,
-              'the 02:00 default of the rule time is missing, is not 7200 s, or is assigned after the explicit time',
-              construct='default:time')
+    for (fn_, un_, suffix, is_default, what, construct) in (
+            (f, u, '.dst_offset', lambda k_: bool(re.match(r'^\(.*\.std_offset \+ n:3600\)$', k_)),
+             'dst_offset is the explicit offset, else std_offset + 1h', 'default:dst_offset'),
+            (fd, ud, '.time.offset', lambda k_: k_ == 'n:7200',
+             'rule time is the explicit /time, else 02:00:00', 'default:time')):
+        Kx = Keys(un_)
+        gx = ctx.cfg(fn_)
+        acc_nodes = [rn for rn in gx.returns if Kx.key(kids(rn.ast)[0]) not in ('n:0', 'null')]
+        Fx = ctx.facts(fn_)
+        bad = None
+        n_def = n_exp = 0
+        for (now, ever, path) in Fx.path_facts(acc_nodes, nodes=True):
+            rk_ = Fx.keys.key(kids(path[-1].ast)[0])
+            if any(op == '==' and set((a_, b_)) == set((rk_, 'null')) for (op, a_, b_) in now):
+                continue          # this path returns a null cursor: not an acceptance
+            events = []
+            for nd in path:
+                if nd.kind not in ('stmt', 'cond') or nd.ast is None:
+                    continue
+                for x in walk(nd.ast):
+                    if x.get('kind') == 'BinaryOperator' and x.get('opcode') == '=' and Kx.key(kids(x)[0]).endswith(suffix):
+                        events.append(('default' if is_default(Kx.key(kids(x)[1])) else 'other', x))
+                    elif x.get('kind') == 'CallExpr' and callee(x) and callee(x)[0] == 'fn' and \
+                            callee(x)[1].get('name') == 'ParseOffset' and Kx.key(call_args(x)[-1]).endswith(suffix + ')'):
+                        events.append(('explicit', x))
+            if fn_ is f and not any(Kx.key(call_args(c_)[-1]).endswith('dst_start)') for nd in path if nd.ast is not None
+                                    for c_ in walk(nd.ast) if c_.get('kind') == 'CallExpr' and callee(c_) and callee(c_)[0] == 'fn'
+                                    and callee(c_)[1].get('name') == 'ParseDateTime'):
+                continue      # standard-time-only acceptance: the field is not part of the result
+            kinds = [e_[0] for e_ in events]
+            if not kinds or kinds[-1] == 'other' or ('explicit' in kinds and kinds[-1] != 'explicit'):
+                bad = (kinds, events[-1][1] if events else fn_)
+            n_def += kinds[-1:] == ['default']
+            n_exp += kinds[-1:] == ['explicit']
+        ctx.check(bad is None and n_def > 0 and n_exp > 0, 'C16-default', what, bad[1] if bad else fn_,
+                  'on an accepting path the field is written %s: the documented default is missing, wrong, or overwrites an '
+                  'explicitly given value' % (bad[0] if bad else '(no default / no explicit path)'), construct=construct,
+                  detail='%d paths end with the default, %d with the explicit value' % (n_def, n_exp))
     fo = Folder(u)
     for c in calls + t_calls:
         args = call_args(c)
